@@ -5,6 +5,7 @@
 #include <fixedmath/iostream.h>
 #include <sstream>
 #include <cstring>
+#include <cerrno>
 #include <utility>
 #include <array>
 #include "api.h"
@@ -309,6 +310,11 @@ FM_EXPORT void fm_un_batch(int op, const i64* a, size_t n, i64* out) { dispatch<
 FM_EXPORT i64 fm_bin(int op, i64 a, i64 b) { return dispatch<BinCall,i64>(op, std::make_integer_sequence<int,B_COUNT>{}, a, b); }
 FM_EXPORT void fm_bin_row(int op, i64 a, const i64* b, size_t n, i64* out) { dispatch<BinRow,void>(op, std::make_integer_sequence<int,B_COUNT>{}, a, b, n, out); }
 FM_EXPORT void fm_bin_batch(int op, const i64* a, const i64* b, size_t n, i64* out) { dispatch<BinBatch,void>(op, std::make_integer_sequence<int,B_COUNT>{}, a, b, n, out); }
+
+// the same out-of-line calls with the thread's errno preset by the caller (a stale EDOM / ERANGE left behind by unrelated libm
+// calls of the application): the environment is an input, and no result may depend on it
+FM_EXPORT i64 fm_un_env(int op, i64 a, int errno_value) { errno = errno_value; return dispatch<UnCall,i64>(op, std::make_integer_sequence<int,U_COUNT>{}, a); }
+FM_EXPORT i64 fm_bin_env(int op, i64 a, i64 b, int errno_value) { errno = errno_value; return dispatch<BinCall,i64>(op, std::make_integer_sequence<int,B_COUNT>{}, a, b); }
 
 namespace {
 FM_NOINLINE i64 shl_call(i64 a, int r) noexcept { return (fx(a) << r).v; }
